@@ -36,7 +36,7 @@ static bool g_invoked, g_invoked_ok, g_thrown, g_uncaught;
 static int g_stores, g_sets, g_resets, g_ev_waits;   /* saturating at 2 */
 static long g_last_read, g_last_stored;
 
-#define ONCE_FRAME flag->status_, g_self_running, g_won, g_invoked, g_invoked_ok, g_thrown, g_uncaught, g_stores, g_sets, \
+#define ONCE_FRAME flag->status_, g_cas_seen_once, g_self_running, g_won, g_invoked, g_invoked_ok, g_thrown, g_uncaught, g_stores, g_sets, \
                    g_resets, g_ev_waits, g_last_read, g_last_stored
 
 /* other threads' steps (TRUSTED: the rely; every transition in it is a guarantee asserted on the unit).  While we are
@@ -57,10 +57,11 @@ static long status_load(long *p)
   return *p;
 }
 /* compare_exchange_strong: no spurious failure */
-static bool status_cas(long *p, long *expected, long desired)
+static long g_cas_seen_once;   /* the value a failed CAS read (written back to the caller's `expected` by the macro below) */
+static bool status_cas_v(long *p, long expected, long desired)
 {
   interfere_status(p);
-  if (*p == *expected)
+  if (*p == expected)
   {
     VX_ASSERT(G_CAS(*p, desired, g_self_running), "guarantee: the only CAS step is 0 -> running, by a thread that is not already the runner");
     *p = desired;
@@ -68,10 +69,13 @@ static bool status_cas(long *p, long *expected, long desired)
     g_won = true;
     return true;
   }
-  *expected = *p;
+  g_cas_seen_once = *p;
   g_last_read = *p;
   return false;
 }
+/* `expected` is passed by value and updated in the CALLER's scope: if a refactoring makes it a loop-carried local, the frame
+ * obligation names the local itself (which the driver's loop-frame widening handles), not `*expected` inside this stub */
+#define status_cas(p, expected_lv, desired) (status_cas_v((p), (expected_lv), (desired)) ? true : (((expected_lv) = g_cas_seen_once), false))
 static void status_store(long *p, long v)
 {
   interfere_status(p);
